@@ -65,6 +65,11 @@ def _values(rng):
     v = rng.uniform(5, 9, size=n)
   else:
     v = -np.abs(rng.normal(size=n)) * 1e5
+  # data columns arrive in every dtype (integer feature columns, integer labels, float32 frames)
+  if vk in ("ints", "few", "const") and rng.rand() < .5:
+    v = v.astype([np.int64, np.int32, np.uint8][int(rng.randint(3))])
+  elif rng.rand() < .15:
+    v = v.astype(np.float32)
   return vk, v
 
 
@@ -99,6 +104,7 @@ def judge(ctx, site, kp, distinct, k, mode, info):
   tfl = st["tfl"]
   msgs = []
   kp = np.asarray(kp, dtype=float)
+  distinct = np.asarray(distinct, dtype=np.float64)      # float32 / integer data: compare as exact float64 values
   if kp.ndim != 1 or not np.all(np.isfinite(kp)):
     msgs.append("keypoints not a finite 1-D array: %s" % kp)
   else:
@@ -135,6 +141,7 @@ def run_case(ctx, case):
     distinct, vv = _distinct(v, cmin, cmax, dv)
     info = {"values": core.brief(v.tolist(), 30), "num_keypoints": k, "mode": mode, "clip_min": cmin, "clip_max": cmax,
             "default_value": dv, "weights": None if w is None else core.brief(w.tolist(), 30), "reduction": red}
+    ctx.cls("dtype:" + str(np.asarray(v).dtype))
     ctx.cls("values:" + vk, "mode:" + mode, "weights:%s" % (w is not None), "clip:%d%d" % (cmin is not None, cmax is not None),
             "default:%s" % (dv is not None), "n:%d" % len(v))
     if len(distinct) == 0 or len(vv) == 0:
